@@ -17,8 +17,13 @@ from core import cb, clist, cn, cz
 import lightworks as lw
 from lightworks import emulator
 
-EPS = 1e-9
+EPS = 1e-9          # default settings.sampler_probability_threshold
+THRS = {"d": None, "0": (0, 1), "6": (1, 10**6), "3": (1, 10**3)}     # other values of the setting: exact rationals
 TOL = 1e-10          # float accuracy of a probability (values are sums of < 100 terms of size <= 1)
+
+
+class SharedDefault(Exception):
+    pass
 
 
 def dict_diff(a, b, tol):
@@ -29,7 +34,7 @@ def dict_diff(a, b, tol):
     return None
 
 
-def reference_distribution(U, n, full_in):
+def reference_distribution(U, n, full_in, eps=EPS):
     """Independent reference: for every pattern on the n circuit modes, the sum over all
     occupations of the loss modes of |permanent amplitude|^2.
     Returns (exact marginal, marginal with every full state of probability <= EPS dropped,
@@ -44,7 +49,7 @@ def reference_distribution(U, n, full_in):
         key = tuple(fo[:n])
         dist[key] = dist.get(key, 0.0) + p
         nlo[key] = nlo.get(key, 0) + 1
-        if p > EPS:
+        if p > eps:
             trunc[key] = trunc.get(key, 0.0) + p
     return dist, trunc, nlo, allp
 
@@ -79,14 +84,18 @@ class C04:
     RULE = ("random circuit trees (0-4 loss elements anywhere incl. inside heralded sub-circuits, heralds with 0-2 photons, lossless too) x "
             "inputs (vacuum, single, bunched, <= 3 photons) x both backends, ideal source; every 10th case is a deliberate near-threshold "
             "circuit (exact rational tiny-angle beam splitter, full states of probability 4e-10 / 2e-9 / sums of sub-threshold states above "
-            "the threshold, two loss elements in series); the whole dictionary is compared with the model (1e-10) and "
+            "the threshold, two loss elements in series); single-mode circuits; settings.sampler_probability_threshold also 0 / 1e-6 / 1e-3; "
+            "the same request through Backend.full_probability_distribution; histories on the one Sampler that is read (created before "
+            "the circuit was completed, re-pointed from a twin with other herald photons, failing reads on a circuit the input does not fit, "
+            "read twice, backend switched with the setter), explicit ideal Source/Detector objects, Backend objects; the whole dictionary is compared with the model (1e-10) and "
             "with an independent permanent-based reference (marginalised over loss modes, per-state truncation). Cases with a full-state "
             "probability within 0.1% of the 1e-9 threshold are skipped. Non-trivial = lossy circuit with >= 2 photons or heralded circuit; distinct = distinct JSON")
     COQ_TARGETS = ["theories/Exec/RunFock.vo"]
     CHUNK = 20
     TRUSTED = ["thewalrus.perm is the mathematical permanent (the oracle recomputes it by direct expansion)",
                "the float-dependent branch total_prob < 1 changes a result by <= 1e-15 after the F1 repair and is inside the tolerance"]
-    ASSUMPTIONS = ["settings.sampler_probability_threshold = 1e-9 (default)"]
+    ASSUMPTIONS = ["settings.sampler_probability_threshold = 1e-9 (default) unless the case sets it (restored after the case); "
+                   "a Sampler is only read after the setting has its final value (the setting is not part of the Sampler's snapshot)"]
 
     def __init__(self):
         self._cache = {}
@@ -96,39 +105,114 @@ class C04:
         cases = []
         for i in range(n):
             if i % 10 == 7:
-                cases.append(near_threshold_case(rng))
+                c = near_threshold_case(rng)
+                c["hist"] = [None, "twice", "switch"][(i // 10) % 3]
+                cases.append(c)
                 continue
             prog, cid, nin, hp = fg.gen_circuit(rng, tier, lossy=[True, True, None, False][i % 4])
             photons = min(rng.choice([0, 1, 2, 2, 3]), 4 - hp)
             inp = fg.gen_state(rng, nin, photons)
             if i % 9 == 8:
                 inp = inp + [0]      # wrong length -> ValueError
-            cases.append(dict(kind="dist", prog=prog, cid=cid, input=inp, reuse=(i % 3 == 2)))
+            # histories on the ONE Sampler object that is read (the observed read is always the last one):
+            #   reuse  - first serves the same optics with other herald photon numbers, is read, is re-pointed
+            #   early  - created (and read) as soon as the circuit object exists; the rest of the program then edits
+            #            the circuit in place, the input is set with the input_state setter
+            #   exc    - re-pointed at a circuit the input does not fit, two failing reads, pointed back
+            #   twice  - read twice; switch - read with the other backend first, backend changed with the setter
+            hist = [None, "early", "reuse", "exc", "twice", "reuse", "switch", "early", "reuse"][i % 9]
+            case = dict(kind="dist", prog=prog, cid=cid, input=inp, reuse=(hist == "reuse"), hist=hist)
+            # API forms: explicit ideal Source / Detector objects, a Backend object instead of its name
+            case["src_obj"] = rng.random() < 0.3
+            case["bk_obj"] = rng.random() < 0.3
+            # other values of settings.sampler_probability_threshold (0 = nothing is dropped)
+            if i % 6 == 4:
+                case["thr"] = rng.choice(["0", "0", "6", "3"])
+            cases.append(case)
+        # single-mode circuits (a generated tree never ends in one): phase and loss on one mode, 0..3 photons
+        for j in range(10 if tier == "quick" else 300):
+            prog = [["new", 0, 1]]
+            for _ in range(rng.randint(0, 3)):
+                if rng.random() < 0.4:
+                    prog.append(["ps", 0, 0, rng.randrange(len(cg.PHV)), cg.gen_value_loss(rng, 0.5)])
+                else:
+                    prog.append(["loss", 0, 0, cg.gen_value_loss(rng, 1.0)])
+            cases.append(dict(kind="dist", prog=prog, cid=0, input=[rng.choice([0, 1, 2, 3])], reuse=False,
+                              hist=[None, "early", "exc", "twice", "switch"][j % 5], src_obj=j % 2 == 0, bk_obj=j % 3 == 0))
         return cases
 
     def _circuit(self, c):
         _, pool = cg.run_impl(c["prog"])
         return pool[c["cid"]]
 
-    def _dist(self, circ, inp, backend, prev=None):
+    def _new_sampler(self, c, circ, state, backend):
+        kw = {}
+        if c.get("src_obj"):
+            kw = dict(source=emulator.Source(), detector=emulator.Detector())
+        return emulator.Sampler(circ, state, backend=emulator.Backend(backend) if c.get("bk_obj") else backend, **kw)
+
+    def _dist(self, c, circ, inp, backend, prev=None, early=None, pre=None):
         # a default-constructed Sampler whose default Source is tuned in place and which is thrown away: the next
         # default-constructed Sampler must still have its own ideal source
         try:
             d0 = emulator.Sampler(circ, lw.State(list(inp)))
             d0.source.brightness = 0.6
             d0.source.purity = 0.9
+            chk = emulator.Sampler(circ, lw.State(list(inp))).source
+            leaked = (chk.brightness, chk.purity, chk.indistinguishability) != (1, 1, 1)
+            if leaked:
+                # put the values back (an impure source makes every later case exponentially slow) and report
+                d0.source.brightness = 1
+                d0.source.purity = 1
         except Exception:  # noqa: BLE001
-            pass
-        if prev is not None:
+            leaked = False
+        if leaked:
+            raise SharedDefault("a Sampler created without a source does not have the documented perfect source: "
+                                "the Source of an earlier, discarded Sampler was tuned in place")
+        hist = c.get("hist") or ("reuse" if c.get("reuse") else None)
+        other = "slos" if backend == "permanent" else "permanent"
+        if early is not None:
+            s = early
+            if list(s.input_state) != list(inp) or len(inp) != circ.input_modes:
+                s.input_state = lw.State(list(inp))
+        elif prev is not None:
             # reuse: the Sampler object first serves another configuration (same optics, different herald
             # photon numbers), is read, and is then re-pointed at the case's circuit - the distribution must
             # be the one of the configuration it has NOW
-            s = emulator.Sampler(prev, lw.State(list(inp)), backend=backend)
+            s = self._new_sampler(c, prev, lw.State(list(inp)), backend)
             s.probability_distribution  # noqa: B018
             s.circuit = circ
             s.input_state = lw.State(list(inp))
+        elif hist == "switch":
+            s = self._new_sampler(c, circ, lw.State(list(inp)), other)
+            s.probability_distribution  # noqa: B018
+            s.backend = emulator.Backend(backend) if c.get("bk_obj") else backend
         else:
-            s = emulator.Sampler(circ, lw.State(list(inp)), backend=backend)
+            s = self._new_sampler(c, circ, lw.State(list(inp)), backend)
+        if hist == "exc":
+            try:
+                s.probability_distribution  # noqa: B018   (a distribution exists before the configuration is broken)
+            except Exception:  # noqa: BLE001
+                pass
+            bad = lw.Circuit(circ.input_modes + 1)
+            try:
+                s.circuit = bad
+                repointed = True
+            except Exception:  # noqa: BLE001   (an implementation may refuse the assignment itself)
+                repointed = False
+            for _ in range(2 if repointed else 0):
+                try:
+                    d = s.probability_distribution
+                    pre.append(["ok", sorted({len(k) for k in d})])
+                except Exception as e:  # noqa: BLE001
+                    pre.append([type(e).__name__])
+            s.circuit = circ
+        if hist == "twice":
+            first = {tuple(k.s): float(v) for k, v in s.probability_distribution.items()}
+            second = {tuple(k.s): float(v) for k, v in s.probability_distribution.items()}
+            if first != second:
+                pre.append(["second read differs from the first"])
+            return second
         return {tuple(k.s): float(v) for k, v in s.probability_distribution.items()}
 
     def _prev_circuit(self, c):
@@ -150,28 +234,95 @@ class C04:
         except Exception:  # noqa: BLE001
             return None
 
+    def _thr(self, c):
+        t = THRS[c.get("thr", "d")]
+        return EPS if t is None else t[0] / t[1]
+
     def impl(self, c):
-        circ = self._circuit(c)
+        old = lw.settings.sampler_probability_threshold
+        try:
+            if c.get("thr"):
+                lw.settings.sampler_probability_threshold = self._thr(c)
+            return self._impl(c)
+        finally:
+            lw.settings.sampler_probability_threshold = old
+
+    def _impl(self, c):
+        early = {}
+
+        def on_step(pool, op, out, before):
+            if c.get("hist") == "early" and not early and op[0] in ("new", "unitary", "copy", "plus") and op[1] == c["cid"] \
+                    and c["cid"] in pool:
+                for b in ("permanent", "slos"):
+                    try:
+                        m = pool[c["cid"]].input_modes
+                        fits = len(c["input"]) == m and all(isinstance(x, int) and x >= 0 for x in c["input"])
+                        s = self._new_sampler(c, pool[c["cid"]], lw.State(list(c["input"]) if fits else [1] + [0] * (m - 1)), b)
+                        s.probability_distribution  # noqa: B018
+                        early[b] = s
+                    except Exception:  # noqa: BLE001
+                        pass
+
+        _, pool = cg.run_impl(c["prog"], on_step=on_step, want=lambda op: [])
+        circ = pool[c["cid"]]
         prev = self._prev_circuit(c) if len(c["input"]) == circ.input_modes else None
         out = {}
         for b in ("permanent", "slos"):
-            r = core.guarded(lambda b=b: self._dist(circ, c["input"], b, prev))
+            pre = []
+            r = core.guarded(lambda b=b, pre=pre: self._dist(c, circ, c["input"], b, prev, early.get(b), pre))
             if "ok" in r:
                 r = {"ok": sorted([list(k), v] for k, v in r["ok"].items())}
             out[b] = r
+            if pre:
+                out["pre_" + b] = pre
+        # the same request one level down: Backend.full_probability_distribution on the compiled circuit
+        # with the herald photons inserted (loss modes are added by the backend)
+        try:
+            fits = len(c["input"]) == circ.input_modes and all(isinstance(x, int) and x >= 0 for x in c["input"])
+            built = circ._build() if fits else None
+        except Exception:  # noqa: BLE001
+            built = None
+        if built is not None:
+            full = fg.full_state(c["input"], circ.heralds["input"], 0)
+            for b in ("permanent", "slos"):
+                def run(b=b):
+                    d = emulator.Backend(b).full_probability_distribution(built, lw.State(list(full)))
+                    return sorted([list(k.s), float(v)] for k, v in d.items())
+                out["bk_" + b] = core.guarded(run)
         return out
 
     def coq_header(self):
-        return cg.COQ_HEADER + "From LW Require Import Model.Fock Exec.RunFock.\n"
+        # run_dist of Exec/RunFock.v with the threshold as an argument, and the same request at the level of
+        # Backend.full_probability_distribution (Model/Fock.v full_dist); definitions local to the generated file
+        return cg.COQ_HEADER + """From LW Require Import Base.Mat Model.State Model.Fock Exec.RunFock.
+Import ListNotations.
+Definition h04_in {A} (p : list (@op bigQ)) (cid : nat) (input : list Z)
+           (f : @circ bigQ -> nat -> @mat (bigQ * bigQ) -> list nat -> A) : res A :=
+  with_circuit p cid (fun c tot U =>
+     if negb (Nat.eqb (length input) (input_modes c)) then Err ModeMismatchError else
+     do _ <- st_validate input;
+     do full <- add_heralds_to_state input (hd_of (c_in c));
+     Ok (f c tot U (znat full))).
+Definition h04_dist (p : list (@op bigQ)) (cid : nat) (slos_backend : bool) (eps : bigQ) (input : list Z) : sx :=
+  sxRes sxPd (h04_in p cid input (fun c tot U full =>
+     pdist_calc qops (if slos_backend then Slos else Permanent) eps (c_n c) (tot - c_n c) U [(full, 1%bigQ)])).
+Definition h04_full (p : list (@op bigQ)) (cid : nat) (slos_backend : bool) (eps : bigQ) (input : list Z) : sx :=
+  sxRes sxPd (h04_in p cid input (fun c tot U full =>
+     full_dist qops (if slos_backend then Slos else Permanent) eps (c_n c) (tot - c_n c) U full)).
+"""
 
     def coq_expr(self, c):
         prog = clist("(" + cg.op_to_coq(o) + ")" for o in c["prog"])
         inp = clist(cz(x) for x in c["input"])
-        return f"SL (run_dist {prog} {cn(c['cid'])} false {inp} :: run_dist {prog} {cn(c['cid'])} true {inp} :: nil)"
+        t = THRS[c.get("thr", "d")] or (1, 10**9)
+        eps = f"(qfrac {cz(t[0])} {cz(t[1])})"
+        cid = cn(c["cid"])
+        return ("SL (" + " :: ".join(f"{f} {prog} {cid} {b} {eps} {inp}" for f in ("h04_dist", "h04_full") for b in ("false", "true"))
+                + " :: nil)")
 
     def decode(self, c, sx):
         out = {}
-        for b, r in zip(("permanent", "slos"), sx):
+        for b, r in zip(("permanent", "slos", "bk_permanent", "bk_slos"), sx):
             out[b] = core.decode_res(r, lambda d: sorted([k, v / 1e12] for k, v in d))
         return out
 
@@ -187,10 +338,11 @@ class C04:
             U = circ.U_full
             if len(c["input"]) == circ.input_modes and all(isinstance(x, int) and x >= 0 for x in c["input"]):
                 n = circ.n_modes
+                eps = self._thr(c)
                 full_in = fg.full_state(c["input"], circ.heralds["input"], U.shape[0] - n)
-                ref, trunc, nlo, allp = reference_distribution(U, n, full_in)
-                # too close to the truncation threshold to decide p > 1e-9 in floats
-                near = any(abs(p - EPS) < 1e-3 * EPS for p in allp)
+                ref, trunc, nlo, allp = reference_distribution(U, n, full_in, eps)
+                # too close to the truncation threshold to decide p > eps in floats
+                near = any(abs(p - eps) < 1e-3 * eps for p in allp)
                 res = (circ, U, n, full_in, ref, trunc, nlo, allp, near)
         except Exception:  # noqa: BLE001
             res = None
@@ -203,7 +355,9 @@ class C04:
         r = self._reference(c)
         if r is not None and r[8]:
             return None
-        for bk in ("permanent", "slos"):
+        for bk in ("permanent", "slos", "bk_permanent", "bk_slos"):
+            if bk not in a:
+                continue          # the backend-level request is made for well-formed inputs only
             x, y = a[bk], b[bk]
             if ("ok" in x) != ("ok" in y):
                 return f"{bk}: outcome {list(x)[0]}:{x.get('err')} vs model {list(y)[0]}:{y.get('err')}"
@@ -213,9 +367,46 @@ class C04:
                 continue
             # the exact model applies the same per-state truncation, so the dictionaries agree to float accuracy
             # (the model prints floor(x * 1e12)); a pattern kept by one side and dropped by the other shows up
-            d = dict_diff({tuple(k): v for k, v in x["ok"]}, {tuple(k): v for k, v in y["ok"]}, TOL)
+            try:
+                d = dict_diff({tuple(k): v for k, v in x["ok"]}, {tuple(k): v for k, v in y["ok"]}, TOL)
+            except Exception as e:  # noqa: BLE001
+                d = f"unreadable distribution ({type(e).__name__}: {e})"
             if d:
                 return f"{bk}: {d}"
+        return None
+
+    def _check_dist(self, b, d, r, eps):
+        """one distribution against the independent reference; None or a failure text"""
+        _, U, n, full_in, ref, trunc, nlo, allp, near = r
+        injected = sum(full_in)
+        nstates = len(allp)
+        vac = tuple([0] * n)
+        if any(not (v >= 0) for v in d.values()):
+            return f"{b}: negative (or undefined) probability"
+        tot = sum(d.values())
+        # sums to one up to the documented per-state truncation
+        if not (1 - eps * nstates - TOL <= tot <= 1 + TOL):
+            return f"{b}: distribution sums to {tot!r} (allowed truncation {eps * nstates:.2g})"
+        if any(len(k) != n for k in d):
+            return f"{b}: a pattern has the wrong number of modes"
+        if any(sum(k) > injected for k in d):
+            return f"{b}: a pattern holds more photons than were injected"
+        for k in set(d) | set(ref):
+            got, exact = d.get(k, 0.0), ref.get(k, 0.0)
+            if k == vac:
+                # the vacuum pattern also receives the truncated mass (at most eps per full state)
+                if not (exact - eps * nlo.get(k, 0) - TOL <= got <= exact + eps * nstates + TOL):
+                    return f"{b}: P(vacuum) = {got!r}, reference {exact!r}"
+                continue
+            # each pattern = its total probability over all ways the other photons were lost, every
+            # full state of probability <= eps dropped (per-STATE truncation): never above the exact
+            # marginal, at most eps per lost-photon configuration below it, and equal to the truncated sum
+            if got > exact + TOL or got < exact - eps * nlo.get(k, 0) - TOL:
+                return (f"{b}: P{list(k)} = {got!r}, reference (sum over lost-photon configurations) {exact!r}, "
+                        f"{nlo.get(k, 0)} configurations")
+            if abs(got - trunc.get(k, 0.0)) > TOL:
+                return (f"{b}: P{list(k)} = {got!r}, reference with states <= {eps:g} dropped individually "
+                        f"{trunc.get(k, 0.0)!r} (exact marginal {exact!r})")
         return None
 
     def oracle(self, c, obs):
@@ -225,7 +416,7 @@ class C04:
         except Exception:  # noqa: BLE001
             return None
         if len(c["input"]) != circ.input_modes:
-            if any("ok" in obs[b] for b in obs):
+            if any("ok" in obs[b] for b in ("permanent", "slos")):
                 return "input of the wrong length was accepted"
             return None
         r = self._reference(c)
@@ -234,48 +425,45 @@ class C04:
         _, U, n, full_in, ref, trunc, nlo, allp, near = r
         if near:
             return None          # too close to the truncation threshold to compare floats
-        injected = sum(full_in)
+        eps = self._thr(c)
         nstates = len(allp)
         vac = tuple([0] * n)
         dists = {}
-        for b in ("permanent", "slos"):
+        for b in ("permanent", "slos", "bk_permanent", "bk_slos"):
+            if b not in obs:
+                if b.startswith("bk_"):
+                    return "Backend.full_probability_distribution could not be asked: the circuit does not compile"
+                continue
+            what = b if not b.startswith("bk_") else f"Backend('{b[3:]}').full_probability_distribution"
             if "ok" not in obs[b]:
-                return f"{b} backend raised {obs[b]['err']} on a valid request"
-            d = {tuple(k): v for k, v in obs[b]["ok"]}
+                if obs[b]["err"] == "SharedDefault":
+                    return ("a Sampler created without a source does not have the documented perfect source: the default Source of an "
+                            "earlier, discarded Sampler was tuned in place and is shared")
+                return f"{what} raised {obs[b]['err']} on a valid request"
+            try:
+                d = {tuple(k): v for k, v in obs[b]["ok"]}
+            except Exception as e:  # noqa: BLE001
+                return f"{what}: unreadable distribution ({type(e).__name__})"
             dists[b] = d
-            if any(v < 0 for v in d.values()):
-                return f"{b}: negative probability"
-            tot = sum(d.values())
-            # sums to one up to the documented per-state truncation
-            if not (1 - EPS * nstates - TOL <= tot <= 1 + TOL):
-                return f"{b}: distribution sums to {tot!r} (allowed truncation {EPS * nstates:.2g})"
-            if any(sum(k) > injected for k in d):
-                return f"{b}: a pattern holds more photons than were injected"
-            if any(len(k) != n for k in d):
-                return f"{b}: a pattern has the wrong number of modes"
-            for k in set(d) | set(ref):
-                got, exact = d.get(k, 0.0), ref.get(k, 0.0)
-                if k == vac:
-                    # the vacuum pattern also receives the truncated mass (at most eps per full state)
-                    if not (exact - EPS * nlo.get(k, 0) - TOL <= got <= exact + EPS * nstates + TOL):
-                        return f"{b}: P(vacuum) = {got!r}, reference {exact!r}"
-                    continue
-                # each pattern = its total probability over all ways the other photons were lost, every
-                # full state of probability <= 1e-9 dropped (per-STATE truncation): never above the exact
-                # marginal, at most eps per lost-photon configuration below it, and equal to the truncated sum
-                if got > exact + TOL or got < exact - EPS * nlo.get(k, 0) - TOL:
-                    return (f"{b}: P{list(k)} = {got!r}, reference (sum over lost-photon configurations) {exact!r}, "
-                            f"{nlo.get(k, 0)} configurations")
-                if abs(got - trunc.get(k, 0.0)) > TOL:
-                    return (f"{b}: P{list(k)} = {got!r}, reference with states <= 1e-9 dropped individually "
-                            f"{trunc.get(k, 0.0)!r} (exact marginal {exact!r})")
+            f = self._check_dist(what, d, r, eps)
+            if f:
+                return f
+        # what the same object answered before the observed read
+        for b in ("permanent", "slos"):
+            for pre in obs.get("pre_" + b, []):
+                if pre[0] == "ok":
+                    return (f"{b}: a Sampler re-pointed at a circuit with {circ.input_modes + 1} modes, which its input does not "
+                            f"fit, returned a distribution (patterns of {pre[1]} modes)")
+                if pre[0].startswith("second read"):
+                    return f"{b}: {pre[0]}"
         # same truncation rule in both back ends: they agree to float accuracy on every non-vacuum pattern,
         # and within the truncated mass on the vacuum pattern
-        a, bb = dists["permanent"], dists["slos"]
-        for k in sorted(set(a) | set(bb)):
-            tol = TOL if k != vac else 2 * EPS * nstates + TOL
-            if abs(a.get(k, 0.0) - bb.get(k, 0.0)) > tol:
-                return f"backends disagree: state {list(k)}: {a.get(k, 0.0)!r} vs {bb.get(k, 0.0)!r}"
+        for x, y in (("permanent", "slos"), ("bk_permanent", "bk_slos")):
+            a, bb = dists[x], dists[y]
+            for k in sorted(set(a) | set(bb)):
+                tol = TOL if k != vac else 2 * eps * nstates + TOL
+                if abs(a.get(k, 0.0) - bb.get(k, 0.0)) > tol:
+                    return f"backends disagree ({x} vs {y}): state {list(k)}: {a.get(k, 0.0)!r} vs {bb.get(k, 0.0)!r}"
         return None
 
     def nontrivial(self, c, obs):
@@ -286,8 +474,11 @@ class C04:
     def stats(self, cases, recs):
         ph = Counter(sum(c["input"]) for c in cases)
         lossy = sum(1 for c in cases if any(o[0] == "loss" for o in c["prog"]))
-        sizes = Counter(len(r["impl"]["slos"].get("ok", [])) for r in recs if isinstance(r["impl"], dict))
-        return {"input_photons": dict(ph), "programs_with_loss_calls": lossy, "distribution_sizes": dict(sizes)}
+        sizes = Counter(len(r["impl"]["slos"].get("ok", [])) for r in recs if isinstance(r["impl"], dict) and "slos" in r["impl"])
+        hist = Counter(str(c.get("hist") or ("reuse" if c.get("reuse") else None)) for c in cases)
+        thr = Counter(c.get("thr", "d") for c in cases)
+        return {"input_photons": dict(ph), "programs_with_loss_calls": lossy, "distribution_sizes": dict(sizes),
+                "histories": dict(hist), "threshold_setting": dict(thr)}
 
     def shrink(self, c):
         for i in range(len(c["prog"]) - 1, 0, -1):
